@@ -7,7 +7,8 @@ def run(tier):
         "C11", tier, profiles=["c11", "inodes", "c11", "c19", "inodes"], nquick=40, nthorough=400, steps=(30, 44), sim=False,
         directed_jobs=lambda s0: [(s0 + 1, dict(nd=2, np=1, copies=2), "directed-linkkinds", 0, directed.link_kinds),
                                   (s0 + 2, dict(nd=2, np=1, copies=2), "directed-restore-after-kill", 0, directed.restore_after_killed_sync),
-                                  (s0 + 3, dict(nd=2, np=1, copies=2), "directed-restore-after-kill", 0, directed.restore_after_killed_sync)],
+                                  (s0 + 3, dict(nd=2, np=1, copies=2), "directed-restore-after-kill", 0, directed.restore_after_killed_sync),
+                                  (s0 + 4, dict(nd=2, np=1, copies=2, inomode=True), "directed-twins-swapped", 0, directed.twins_swapped_fix)],
         shapes=[(2, 2), (3, 1), (2, 1), (4, 2), (3, 3), (1, 1)],
         rule="histories over the full alphabet of changes (create, same-size rewrite, append, truncate, delete, rename within and "
              "between directories incl. onto existing names, move across disks, copy, replacing a file by a directory or link and "
